@@ -289,7 +289,23 @@ def rationalise_literals(text):
         from math import gcd
         g = gcd(num, den) or 1
         cnt[0] += 1
-        return "RQ(%d,%d)" % (num // g, den // g)
+        num, den = num // g, den // g
+        # RQ takes int arguments: larger numerators / denominators are written as a product of int-sized factors
+        def factors(v):
+            out = []
+            while v > 1000000000:
+                if v % 1000000000 == 0:
+                    out.append(1000000000); v //= 1000000000
+                else:
+                    raise ExtractError("literal %s does not fit RQ(int, int)" % m.group(0))
+            out.append(v)
+            return out
+        nf, df = factors(num), factors(den)
+        if len(nf) == 1 and len(df) == 1:
+            return "RQ(%d,%d)" % (num, den)
+        k = max(len(nf), len(df))
+        nf += [1] * (k - len(nf)); df += [1] * (k - len(df))
+        return "(" + " * ".join("RQ(%d,%d)" % (a, b) for a, b in zip(nf, df)) + ")"
 
     return FLOAT_LIT.sub(rep, text), cnt[0]
 
@@ -357,11 +373,19 @@ def tool_env():
         os.makedirs(d, exist_ok=True)
         link = os.path.join(d, "z3")
         newz3 = shutil.which("z3-new")
-        if newz3 and not os.path.exists(link):
+        if newz3:
+            # `z3` = staged portfolio of z3 5.1 instances (tools/z3_portfolio.py): removes the heavy tail of z3's run time
+            want = "#!/bin/sh\nexec python3 %s \"$@\"\n" % os.path.join(VERIF, "tools", "z3_portfolio.py")
             try:
-                os.symlink(newz3, link)
-            except FileExistsError:
-                pass
+                cur = open(link).read() if os.path.isfile(link) and not os.path.islink(link) else None
+            except (OSError, UnicodeDecodeError):
+                cur = None
+            if cur != want:
+                tmp = link + ".%d.tmp" % os.getpid()
+                with open(tmp, "w") as fh:
+                    fh.write(want)
+                os.chmod(tmp, 0o755)
+                os.replace(tmp, link)
         _Z3DIR = d
     env = dict(os.environ)
     env["PATH"] = _Z3DIR + ":" + env.get("PATH", "")
@@ -922,6 +946,46 @@ def native_ops_replay(mode, nr, nt, nsc, dirbc, threads=4):
                     res = {"status": "error", "detail": "native replay timed out"}
         _NATIVE_CACHE[key] = res
         return res
+
+
+def native_driver(src, args, timeout=300):
+    """compile native/<src>.cpp against the library built from VERIF_REPO's current tree (once per process) and run it with args;
+    exit 1 of the driver = the violation reproduces on the real code"""
+    key = ("drv", src, tuple(args))
+    with _NATIVE_LOCK:
+        if key in _NATIVE_CACHE:
+            return _NATIVE_CACHE[key]
+        b, err = native_library()
+        if b is None:
+            res = {"status": "error", "detail": err}
+        else:
+            exe = os.path.join(b, src)
+            if ("exe", src) not in _NATIVE_CACHE:
+                rc, so, se, _ = _run(["g++", "-std=c++20", "-O1", "-fopenmp", "-I" + os.path.join(REPO, "include"),
+                                      os.path.join(VERIF, "native", src + ".cpp"), os.path.join(b, "libGMGPolarLib.a"),
+                                      os.path.join(b, "libPolarGrid.a"), os.path.join(b, "libInputFunctions.a"), "-o", exe], b, 900, 16)
+                _NATIVE_CACHE[("exe", src)] = (rc == 0, (so + se)[-600:])
+            ok, msg = _NATIVE_CACHE[("exe", src)]
+            if not ok:
+                res = {"status": "error", "detail": "replay driver did not compile: " + msg}
+            else:
+                env = dict(os.environ, OMP_WAIT_POLICY="passive")
+                try:
+                    p = subprocess.run([exe] + [str(a) for a in args], capture_output=True, text=True, timeout=timeout, env=env)
+                    res = {"status": "reproduced" if p.returncode == 1 else ("not-reproduced" if p.returncode == 0 else "error"),
+                           "command": src + " " + " ".join(str(a) for a in args), "detail": p.stdout[-1500:] + p.stderr[-300:]}
+                except subprocess.TimeoutExpired:
+                    res = {"status": "error", "detail": "native replay timed out"}
+        _NATIVE_CACHE[key] = res
+        return res
+
+
+def last_values(rec):
+    """last assignment per name in the verifier trace of a replay record"""
+    d = {}
+    for k, v in rec.get("verifier_inputs", []) or []:
+        d[k] = v
+    return d
 
 
 def ops_replay_cb(mode):
